@@ -34,7 +34,7 @@ def run(chk):
     chk.rule("OPENFLAG.preserved", "has_open_paths_ (which switches IntersectEdges' open-path branch on) is not written by any Execute overload: it is set "
              "by the Add family and reset by Clear together with the paths")
     chk.rule("ADD.closing-vertex", "AddPaths_ drops a trailing vertex equal to the first one iff the path is closed")
-    chk.rule("SIBLING.64-D", "BuildPath64 / BuildPathD treat open paths alike")
+    chk.rule("SIBLING.64-D", "BuildPath64 / BuildPathD treat open paths alike; BuildTreeD equals BuildTree64 modulo renames and de-scaling (the open pieces of a PolyTreeD run are converted with the inverse scale like the closed ones)")
     for cfg in cfgs:
         db = AstDB(cfg)
         e3.detach_table(db, chk, cfg)
@@ -63,7 +63,7 @@ def run(chk):
         except ImportError:
             e6 = None
         if e6 is not None:
-            e6.rule_64_d(db, chk, cfg, only=("BuildPath64",))
+            e6.rule_64_d(db, chk, cfg, only=("BuildPath64", "Clipper64::BuildTree64"))
     chk.floor("T.open", 600 * len(cfgs))
     chk.floor("T.open-toggle", 400 * len(cfgs))
     chk.exhaustive = True
